@@ -75,6 +75,12 @@ func (e *Engine) rpcCheck(n *node) {
 	}
 	ts := []target{{"latest", h - 1}, {[]string{"num", "hash"}[len(e.steps)%2], k}}
 	for _, t := range ts {
+		if n.seeded && t.label == "num" && t.n < n.floor {
+			// below the seeded floor: the handlers answer BLOCK_NOT_FOUND (the views are compared with
+			// the model in belowFloor)
+			e.stats["rpc:block-id:num-below-the-floor(skipped)"]++
+			continue
+		}
 		st := e.g.States[t.n]
 		var id9 rpcv9.BlockID
 		var id10 rpcv10.BlockID
@@ -175,7 +181,7 @@ func (e *Engine) rpcCheck(n *node) {
 						}
 					}
 				}
-				var g9, g10 string
+				var g9, g10, glu string
 				_, pan, _ := lib.Try(func() error {
 					v, err := p.v9.StorageAt(&a, &sl, &id9)
 					g9 = rpcTok(v, err)
@@ -187,13 +193,34 @@ func (e *Engine) rpcCheck(n *node) {
 					} else {
 						g10 = hx(&r.Value)
 					}
+					// the same request with include_last_update_block: same value, plus the block of
+					// the last update of the slot as of the requested block (every third slot)
+					if (si+ai+len(e.steps))%3 != 0 {
+						glu = "skipped"
+						return nil
+					}
+					r2, err := p.v10.StorageAt((*felt.Address)(&a), &sl, &id10, rpcv10.StorageAtResponseFlags{IncludeLastUpdateBlock: true})
+					switch {
+					case err != nil:
+						glu = rpcTok(nil, err)
+					case r2 == nil:
+						glu = "err:nil-result"
+					case hx(&r2.Value) != g10:
+						glu = "err:value-differs-with-the-flag"
+					default:
+						glu = fmt.Sprintf("%x", r2.LastUpdateBlock)
+					}
 					return nil
 				})
 				if pan {
-					g9, g10 = "panic", "panic"
+					g9, g10, glu = "panic", "panic", "panic"
 				}
 				report("v9", "get-storage", q, g9, want9)
 				report("v10", "get-storage", q, g10, want10)
+				if glu != "skipped" && g10 != "nf" && !strings.HasPrefix(g10, "err:") && g10 != "panic" {
+					report("v10", "get-storage-last-update-block", query{Kind: "lu", Addr: &a, Slot: &sl}, glu,
+						e.expectedOn(n, st, query{Kind: "lu", Addr: &a, Slot: &sl}, t.label == "latest"))
+				}
 			}
 		}
 		if e.res != nil {
